@@ -515,4 +515,236 @@ theorem detQuad_iff_alpha {t : TemplP} {vp vm : ℝ} (hvm : vm ≠ 0) (hcb : t.c
   · intro h; rw [h]; field_simp; ring
 
 
+/-! ## Chapman–Jouguet -/
+
+/-- radicand of `findJouguetVelocity` -/
+def jRad (t : TemplP) : ℝ := ((3 : ℝ) * t.alN) * (((1 : ℝ) - t.cb2) + (((3 : ℝ) * t.cb2) * t.alN))
+
+theorem findJouguetVelocity_eq (t : TemplP) :
+    findJouguetVelocity t t.alN = t.cb * (1 + Real.sqrt (jRad t)) / (1 + 3 * t.cb2 * t.alN) := rfl
+
+/-- `part − 2 cb v` is a quadratic in `v` whose larger root is the Jouguet velocity. -/
+theorem detPart_sub {t : TemplP} (hcb : t.cb ^ 2 = t.cb2) (hK : 1 + 3 * t.cb2 * t.alN ≠ 0)
+    (hrad : 0 ≤ jRad t) (v : ℝ) :
+    detPart t v - 2 * t.cb * v
+      = (1 + 3 * t.cb2 * t.alN) * (v - findJouguetVelocity t t.alN) ^ 2
+        + 2 * t.cb * Real.sqrt (jRad t) * (v - findJouguetVelocity t t.alN) := by
+  have hs := Real.sq_sqrt hrad
+  rw [findJouguetVelocity_eq]
+  set S := Real.sqrt (jRad t)
+  unfold jRad at hs
+  unfold detPart
+  have hJ : (1 + 3 * t.cb2 * t.alN) * (t.cb * (1 + S) / (1 + 3 * t.cb2 * t.alN)) = t.cb * (1 + S) := by
+    field_simp
+  generalize t.cb * (1 + S) / (1 + 3 * t.cb2 * t.alN) = J at hJ ⊢
+  rw [← sub_eq_zero]
+  apply (mul_eq_zero.mp _).resolve_left hK
+  rw [← hcb] at hs hJ ⊢
+  linear_combination (-(1 + 3 * t.cb ^ 2 * t.alN) * J - t.cb * (1 + S) + 2 * t.cb * S
+      + 2 * v * (1 + 3 * t.cb ^ 2 * t.alN)) * hJ + t.cb ^ 2 * hs
+
+theorem findJouguetVelocity_ne_zero {t : TemplP} (hcb0 : t.cb ≠ 0) (hK : 1 + 3 * t.cb2 * t.alN ≠ 0) :
+    findJouguetVelocity t t.alN ≠ 0 := by
+  rw [findJouguetVelocity_eq]
+  have : 0 < 1 + Real.sqrt (jRad t) := by positivity
+  exact div_ne_zero (mul_ne_zero hcb0 this.ne') hK
+
+/-- At the Jouguet velocity `part = 2 cb v`. -/
+theorem detPart_at_vJ {t : TemplP} (hcb : t.cb ^ 2 = t.cb2) (hK : 1 + 3 * t.cb2 * t.alN ≠ 0)
+    (hrad : 0 ≤ jRad t) :
+    detPart t (findJouguetVelocity t t.alN) = 2 * t.cb * findJouguetVelocity t t.alN := by
+  have := detPart_sub hcb hK hrad (findJouguetVelocity t t.alN)
+  rw [sub_self] at this
+  linear_combination this
+
+/-- At the Jouguet velocity the discriminant of the detonation branch vanishes. -/
+theorem detDisc_at_vJ {t : TemplP} (hcb : t.cb ^ 2 = t.cb2) (hK : 1 + 3 * t.cb2 * t.alN ≠ 0)
+    (hrad : 0 ≤ jRad t) :
+    detPart t (findJouguetVelocity t t.alN) ^ 2 - 4 * t.cb2 * findJouguetVelocity t t.alN ^ 2 = 0 := by
+  rw [detPart_at_vJ hcb hK hrad, ← hcb]; ring
+
+/-- Chapman–Jouguet: at `vw = vJ` the template detonation has `v₋ = cb`. -/
+theorem detVm_at_vJ {t : TemplP} (hcb : t.cb ^ 2 = t.cb2) (hcb0 : t.cb ≠ 0)
+    (hK : 1 + 3 * t.cb2 * t.alN ≠ 0) (hrad : 0 ≤ jRad t) :
+    detVm t (findJouguetVelocity t t.alN) = t.cb := by
+  have hv := findJouguetVelocity_ne_zero hcb0 hK
+  unfold detVm
+  rw [detDisc_at_vJ hcb hK hrad, Real.sqrt_zero, detPart_at_vJ hcb hK hrad, add_zero]
+  field_simp
+
+/-- For `vw ≥ vJ` one has `part ≥ 2 cb vw`. -/
+theorem detPart_ge {t : TemplP} (hcb : t.cb ^ 2 = t.cb2) (hcb0 : 0 ≤ t.cb)
+    (hK : 0 < 1 + 3 * t.cb2 * t.alN) (hrad : 0 ≤ jRad t) {v : ℝ}
+    (hv : findJouguetVelocity t t.alN ≤ v) : 2 * t.cb * v ≤ detPart t v := by
+  have h := detPart_sub hcb hK.ne' hrad v
+  have h1 : 0 ≤ v - findJouguetVelocity t t.alN := sub_nonneg.mpr hv
+  have h2 : 0 ≤ Real.sqrt (jRad t) := Real.sqrt_nonneg _
+  have : 0 ≤ (1 + 3 * t.cb2 * t.alN) * (v - findJouguetVelocity t t.alN) ^ 2
+        + 2 * t.cb * Real.sqrt (jRad t) * (v - findJouguetVelocity t t.alN) := by positivity
+  linarith
+
+/-- For `vw ≥ vJ` the square root in `detonationVAndT` is real. -/
+theorem detDisc_nonneg {t : TemplP} (hcb : t.cb ^ 2 = t.cb2) (hcb0 : 0 ≤ t.cb)
+    (hK : 0 < 1 + 3 * t.cb2 * t.alN) (hrad : 0 ≤ jRad t) {v : ℝ} (hv0 : 0 ≤ v)
+    (hv : findJouguetVelocity t t.alN ≤ v) : 0 ≤ detPart t v ^ 2 - 4 * t.cb2 * v ^ 2 := by
+  have h := detPart_ge hcb hcb0 hK hrad hv
+  have : detPart t v ^ 2 - 4 * t.cb2 * v ^ 2
+      = (detPart t v - 2 * t.cb * v) * (detPart t v - 2 * t.cb * v + 4 * (t.cb * v)) := by
+    rw [← hcb]; ring
+  rw [this]
+  have : 0 ≤ t.cb * v := mul_nonneg hcb0 hv0
+  apply mul_nonneg <;> linarith
+
+/-- `cb ≤ v₋` for a detonation with `part ≥ 2 cb vw` (in particular `v₋ > 0`). -/
+theorem detVm_ge_cb {t : TemplP} {v : ℝ} (hv0 : 0 < v) (h : 2 * t.cb * v ≤ detPart t v) :
+    t.cb ≤ detVm t v := by
+  unfold detVm
+  rw [le_div_iff₀ (by positivity)]
+  have := Real.sqrt_nonneg (detPart t v ^ 2 - 4 * t.cb2 * v ^ 2)
+  linarith
+
+/-- `v₋ < 1` for a detonation with `0 < cb² < vw < 1`, `αN ≥ 0`. -/
+theorem detVm_lt_one {t : TemplP} {v : ℝ} (hc0 : 0 < t.cb2) (hal : 0 ≤ t.alN)
+    (hv : t.cb2 < v) (hv1 : v < 1) : detVm t v < 1 := by
+  have hv0 : 0 < v := hc0.trans hv
+  have hp : detPart t v < v * (1 + t.cb2) := by
+    unfold detPart
+    have h1 : 0 < (1 - v) * (v - t.cb2) := mul_pos (by linarith) (by linarith)
+    have h2 : 0 ≤ t.cb2 * (1 - v ^ 2) * t.alN := by
+      have : 0 ≤ 1 - v ^ 2 := by nlinarith
+      positivity
+    nlinarith
+  unfold detVm
+  rw [div_lt_one (by positivity)]
+  have h2 : 0 < 2 * v - detPart t v := by nlinarith
+  have : Real.sqrt (detPart t v ^ 2 - 4 * t.cb2 * v ^ 2) < 2 * v - detPart t v := by
+    rw [Real.sqrt_lt' h2]
+    nlinarith
+  linarith
+
+
+/-! ## Fluid equations -/
+
+/-- `shockDE` in closed form. -/
+theorem shockDE_eq (s : HydroP) (v xi T : ℝ) (b : Bool) :
+    shockDE s v (xi, T) b =
+      (gammaSq v * (1 - v * xi) * (boostVelocity xi v ^ 2 / (if b then s.csqHighT T else s.csqLowT T) - 1)
+          * xi / 2 / v,
+       T * gammaSq v * boostVelocity xi v) := by
+  cases b <;> simp [shockDE]
+
+/-- The `ξ`-equation of the template solver is the `ξ`-equation of the general solver
+(same sound speed, `v ≠ 0`). -/
+theorem dxiAndWdv_fst_eq {t : TemplP} {s : HydroP} {v xi w T : ℝ} (hv : v ≠ 0) (b : Bool)
+    (hcs : t.cs2 = s.csqHighT T) (hcb : t.cb2 = s.csqLowT T) :
+    (dxiAndWdv t v (xi, w) b).1 = (shockDE s v (xi, T) b).1 := by
+  cases b <;> simp [dxiAndWdv, shockDE, hv, gammaSq, boostVelocity, hcs, hcb] <;>
+    simp only [div_eq_mul_inv, mul_inv_rev, pow_two] <;> ring
+
+/-- The enthalpy equation of the template solver is `(1 + 1/c²)·w/T` times the temperature equation of the
+general solver. -/
+theorem dxiAndWdv_snd_eq {t : TemplP} {s : HydroP} {v xi w T : ℝ} (hT : T ≠ 0) (b : Bool)
+    (hcs : t.cs2 = s.csqHighT T) (hcb : t.cb2 = s.csqLowT T) :
+    (dxiAndWdv t v (xi, w) b).2
+      = (1 + 1 / (if b then s.csqHighT T else s.csqLowT T)) * w / T * (shockDE s v (xi, T) b).2 := by
+  cases b <;> simp [dxiAndWdv, shockDE, gammaSq, boostVelocity, hcs, hcb] <;> field_simp
+
+section deriv
+variable {q : TPar}
+
+theorem hasDerivAt_wH (q : TPar) {T : ℝ} (hT : 0 < T) :
+    HasDerivAt q.hydro.wHighT (q.mu * q.hydro.wHighT T / T) T := by
+  have h := (Real.hasDerivAt_rpow_const (x := T) (p := q.mu) (Or.inl hT.ne')).const_mul (q.mu * q.ap / 3)
+  have e : q.mu * q.ap / 3 * (q.mu * T ^ (q.mu - 1)) = q.mu * q.hydro.wHighT T / T := by
+    simp only [TPar.hydro]; rw [Real.rpow_sub_one hT.ne']; field_simp
+  rw [e] at h; exact h
+
+theorem hasDerivAt_wL (q : TPar) {T : ℝ} (hT : 0 < T) :
+    HasDerivAt q.hydro.wLowT (q.nu * q.hydro.wLowT T / T) T := by
+  have h := (Real.hasDerivAt_rpow_const (x := T) (p := q.nu) (Or.inl hT.ne')).const_mul (q.nu * q.am / 3)
+  have e : q.nu * q.am / 3 * (q.nu * T ^ (q.nu - 1)) = q.nu * q.hydro.wLowT T / T := by
+    simp only [TPar.hydro]; rw [Real.rpow_sub_one hT.ne']; field_simp
+  rw [e] at h; exact h
+
+end deriv
+
+/-! ## Shock-front algebra (single phase, constant sound speed `p = w/μ − ε`) -/
+
+/-- Momentum-flux defect across the shock front given energy-flux continuity. -/
+theorem front_momentum_defect {w1 w2 xi u mu eps : ℝ} (hxi : xi ≠ 0) (hu : u ≠ 0)
+    (hxi1 : 1 - xi ^ 2 ≠ 0) (hu1 : 1 - u ^ 2 ≠ 0) (hmu : mu ≠ 0)
+    (E : w1 * gammaSq xi * xi = w2 * gammaSq u * u) :
+    (w1 * gammaSq xi * xi ^ 2 + (w1 / mu - eps)) - (w2 * gammaSq u * u ^ 2 + (w2 / mu - eps))
+      = w1 * gammaSq xi * xi * ((xi - u) * ((mu - 1) * xi * u - 1)) / (mu * xi * u) := by
+  have hxi1' : 1 - xi * xi ≠ 0 := by rwa [← pow_two]
+  have hu1' : 1 - u * u ≠ 0 := by rwa [← pow_two]
+  have hw2 : w2 = w1 * gammaSq xi * xi * (1 - u * u) / u := by
+    unfold gammaSq at E ⊢; field_simp at E ⊢; linarith
+  rw [hw2]; unfold gammaSq
+  field_simp
+  ring
+
+/-- the residual returned by `HydrodynamicsTemplateModel._shooting` (last line), hand-transcribed:
+`vpSW / vmSW - ((self.mu - 1) * wmSW + 1) / ((self.mu - 1) + wmSW)` -/
+noncomputable def shootResidual (t : TemplP) (vpSW vmSW wmSW : ℝ) : ℝ :=
+  vpSW / vmSW - ((t.mu - 1) * wmSW + 1) / ((t.mu - 1) + wmSW)
+
+/-- Given energy-flux continuity, the `_shooting` residual vanishes iff `(ξ − u)((μ−1)ξu − 1) = 0`. -/
+theorem residual_iff_factor {w1 w2 xi u mu : ℝ} (hxi : 0 < xi) (hu : 0 < u)
+    (hxi1 : xi < 1) (hu1 : u < 1) (hw1 : w1 ≠ 0) (hden : (mu - 1) + w2 / w1 ≠ 0)
+    (E : w1 * gammaSq xi * xi = w2 * gammaSq u * u) :
+    xi / u - ((mu - 1) * (w2 / w1) + 1) / ((mu - 1) + w2 / w1) = 0
+      ↔ (xi - u) * ((mu - 1) * xi * u - 1) = 0 := by
+  have hxi1' : 1 - xi * xi ≠ 0 := by nlinarith
+  have hu1' : 1 - u * u ≠ 0 := by nlinarith
+  have hxi2 : 1 - xi ^ 2 ≠ 0 := by nlinarith
+  have hu2 : 1 - u ^ 2 ≠ 0 := by nlinarith
+  have hw2 : w2 / w1 = xi * (1 - u * u) / (u * (1 - xi * xi)) := by
+    unfold gammaSq at E; field_simp at E ⊢; linarith
+  rw [hw2] at hden ⊢
+  have hsum : xi + u ≠ 0 := by positivity
+  have key : xi * ((mu - 1) + xi * (1 - u * u) / (u * (1 - xi * xi)))
+        - ((mu - 1) * (xi * (1 - u * u) / (u * (1 - xi * xi))) + 1) * u
+      = - ((xi + u) * ((xi - u) * ((mu - 1) * xi * u - 1))) / (u * (1 - xi * xi)) := by
+    field_simp
+    ring
+  rw [sub_eq_zero, div_eq_div_iff hu.ne' hden, ← sub_eq_zero, key, div_eq_zero_iff, neg_eq_zero,
+    mul_eq_zero]
+  have hd : u * (1 - xi * xi) ≠ 0 := mul_ne_zero hu.ne' hxi1'
+  simp [hsum, hd]
+
+/-- Given energy-flux continuity with non-zero flux, momentum-flux continuity holds iff
+`(ξ − u)((μ−1)ξu − 1) = 0`. -/
+theorem momentum_iff_factor {w1 w2 xi u mu eps : ℝ} (hxi : xi ≠ 0) (hu : u ≠ 0)
+    (hxi1 : 1 - xi ^ 2 ≠ 0) (hu1 : 1 - u ^ 2 ≠ 0) (hmu : mu ≠ 0) (hw1 : w1 ≠ 0)
+    (E : w1 * gammaSq xi * xi = w2 * gammaSq u * u) :
+    w1 * gammaSq xi * xi ^ 2 + (w1 / mu - eps) = w2 * gammaSq u * u ^ 2 + (w2 / mu - eps)
+      ↔ (xi - u) * ((mu - 1) * xi * u - 1) = 0 := by
+  rw [← sub_eq_zero, front_momentum_defect hxi hu hxi1 hu1 hmu E, div_eq_zero_iff]
+  have hg : gammaSq xi ≠ 0 := by
+    unfold gammaSq; rw [← pow_two]; exact one_div_ne_zero hxi1
+  have h1 : w1 * gammaSq xi * xi ≠ 0 := by positivity
+  have h2 : mu * xi * u ≠ 0 := by positivity
+  simp [h1, h2]
+
+/-- At the shock front (`(μ−1) ξ u = 1`, i.e. `ξ u = cs²`) the `_shooting` residual vanishes iff the
+energy flux is continuous. -/
+theorem residual_iff_energy {w1 w2 xi u mu : ℝ} (hxi : 0 < xi) (hu : 0 < u)
+    (hxi1 : xi < 1) (hu1 : u < 1) (hw1 : w1 ≠ 0) (hden : (mu - 1) + w2 / w1 ≠ 0)
+    (hfront : (mu - 1) * xi * u = 1) :
+    xi / u - ((mu - 1) * (w2 / w1) + 1) / ((mu - 1) + w2 / w1) = 0
+      ↔ w1 * gammaSq xi * xi = w2 * gammaSq u * u := by
+  have hxi1' : 1 - xi * xi ≠ 0 := by nlinarith
+  have hu1' : 1 - u * u ≠ 0 := by nlinarith
+  have hxi2 : 1 - xi ^ 2 ≠ 0 := by nlinarith
+  have hu2 : 1 - u ^ 2 ≠ 0 := by nlinarith
+  have hm : mu - 1 = 1 / (xi * u) := by field_simp; linarith
+  rw [hm] at hden ⊢
+  unfold gammaSq
+  rw [sub_eq_zero, div_eq_div_iff hu.ne' hden]
+  constructor
+  · intro h; field_simp at h ⊢; linear_combination h
+  · intro h; field_simp at h ⊢; linear_combination h
+
+
 end Lemmas.Template
